@@ -7,6 +7,7 @@ from sa import canon
 from sa.model import PKG_DIR
 
 out = {}
+srcs = {}
 for root, dirs, files in sorted(os.walk(PKG_DIR)):
     dirs.sort()
     for fn in sorted(files):
@@ -17,6 +18,28 @@ for root, dirs, files in sorted(os.walk(PKG_DIR)):
         if parts[-1] == "__init__":
             parts = parts[:-1]
         name = ".".join(parts)
-        out[name] = canon.symbols_of(ast.parse(open(path, encoding="utf-8").read()), name)
+        text = open(path, encoding="utf-8").read()
+        tree = ast.parse(text)
+        out[name] = canon.symbols_of(tree, name)
+        if name in ("dateutil.tz.win", "dateutil.tzwin", "dateutil.zoneinfo.rebuild"):
+            continue
+        # source of every top-level function and method (the reference spelling for the equivalence prover)
+        def visit(body, prefix):
+            for st in body:
+                if isinstance(st, (ast.FunctionDef, ast.AsyncFunctionDef)):
+                    seg = ast.get_source_segment(text, st, padded=True)
+                    first = min([st.lineno] + [d.lineno for d in st.decorator_list])
+                    lines = text.splitlines()[first - 1:st.end_lineno]
+                    srcs.setdefault(name, {}).setdefault(prefix + "." + st.name, []).append({"lineno": first, "text": "\n".join(lines)})
+                elif isinstance(st, ast.ClassDef):
+                    visit(st.body, prefix + "." + st.name)
+                elif isinstance(st, (ast.If, ast.Try)):
+                    for fld in ("body", "orelse", "finalbody"):
+                        visit(getattr(st, fld, []) or [], prefix)
+                    for h in getattr(st, "handlers", []):
+                        visit(h.body, prefix)
+        visit(tree.body, name)
 json.dump(out, open(canon.BASELINE_PATH, "w"), indent=0, sort_keys=True)
+json.dump(srcs, open(canon.BASELINE_SRC_PATH, "w"), indent=0, sort_keys=True)
+print("wrote", canon.BASELINE_SRC_PATH, sum(len(v) for v in srcs.values()), "functions")
 print("wrote", canon.BASELINE_PATH, len(out), "modules", sum(len(v["locals"]) for v in out.values()), "functions")
